@@ -27,12 +27,26 @@
                               fields their values fit (the fragment bounded by the four echo-* findings)
      hist_reflects_current    after ANY history of conversion steps an explicit conversion attaches an object holding
                               the conversion of every CURRENT field; receiver calls; failed steps leave nothing behind
+   Sixth round (proved, for ALL type tables / nesting depths / arrays / states):
+     fill_json_map_paths_sound, _complete, _distinct   the table hashutils.go:fillJsonMap builds: every entry's EmbedPath
+                              leads to the field it was made from, every field reachable through embedded structs (any
+                              depth) has its entry, no two entries share a path; embed_path_determines_key
+     resolve_designates_field, resolve_finds_every_field   SexpToGoStructs' key lookup returns the path of a field carrying
+                              that key (or its capitalised form), of that field's type; every promoted field is found
+     slice_elements_pointwise element i of a converted array = conversion of element i of the source into a fresh zero
+                              element (no leakage between elements / from the old slice): slice_replaces_previous_content,
+                              slice_struct_element_unnamed_zero (by-value struct elements: unnamed fields are zero),
+                              slice_equal_ids_share ((a b a): equal identities, equal content / one heap object)
+     kind_table_total         conv follows the 13 x 13 (value kind x slot kind) table on every pair; the table refuses no
+                              value the specification accepts, and every scalar the specification refuses is refused by the
+                              table or is one of the two listed holes (uint64 dropped, float64 truncated into int64)
    Still not proved:
      from_go_to_go with non-nil pointer / interface fields to fragment structs (fillHashHelper handles them; needs the
      heap-stability of from_val under later allocations and freshness of identities; checked by correspondence only). *)
 From Coq Require Import ZArith List Bool.
 Import ListNotations.
-Require Import ZV.Model.GoConv ZV.Model.GoConvSpec ZV.Proofs.GoConvProofs ZV.Proofs.GoConvShare ZV.Proofs.GoConvHist ZV.Proofs.GoConvRound.
+Require Import ZV.Model.GoConv ZV.Model.GoConvSpec ZV.Model.GoConvKinds ZV.Proofs.GoConvProofs ZV.Proofs.GoConvShare ZV.Proofs.GoConvHist ZV.Proofs.GoConvRound
+  ZV.Proofs.GoConvPaths ZV.Proofs.GoConvArr ZV.Proofs.GoConvKindProofs.
 Open Scope Z_scope.
 
 Theorem to_go_fills_all : forall res_ te bty cv l base st b' st',
@@ -372,3 +386,124 @@ Example name_clash_resolution :
   /\ wf_tenv 9 (mkT [ mkS [88] (Some [120]) [ mkField [78] (Some [110]) false TString ];
                       mkS [89] (Some [121]) [ mkField [88] None true (TStruct [88]); mkField [78] (Some [110]) false TString ] ] []) = true.
 Proof. repeat split; vm_compute; reflexivity. Qed.
+
+(* ---- sixth round: the field table for any nesting depth, arrays, the total kind table ------------------ *)
+
+Theorem fill_json_map_paths_sound : forall te fuel s prefix k p,
+    In (k, p) (jsonmap fuel te s prefix) ->
+    exists q fld, p = prefix ++ q /\ field_at te s q = Some fld /\ key_of fld = k.
+Proof. exact jsonmap_sound. Qed.
+Print Assumptions fill_json_map_paths_sound.
+
+Theorem fill_json_map_paths_complete : forall te fuel q s prefix fld,
+    field_at te s q = Some fld -> (length q <= fuel)%nat ->
+    In (key_of fld, prefix ++ q) (jsonmap fuel te s prefix).
+Proof. exact jsonmap_complete. Qed.
+Print Assumptions fill_json_map_paths_complete.
+
+Theorem fill_json_map_paths_distinct : forall te fuel s prefix, NoDup (map snd (jsonmap fuel te s prefix)).
+Proof. exact jsonmap_paths_nodup. Qed.
+Print Assumptions fill_json_map_paths_distinct.
+
+Theorem embed_path_determines_key : forall te fuel s prefix k1 k2 p,
+    In (k1, p) (jsonmap fuel te s prefix) -> In (k2, p) (jsonmap fuel te s prefix) -> k1 = k2.
+Proof. exact jsonmap_path_determines_key. Qed.
+Print Assumptions embed_path_determines_key.
+
+Theorem resolve_designates_field : forall fuel te s key p,
+    resolve fuel te s key = Some p ->
+    exists fld, field_at te s p = Some fld /\ type_at te (TStruct s) p = Some (f_type fld) /\
+                (key_of fld = key \/ upper_first key = Some (key_of fld)).
+Proof. exact GoConvPaths.resolve_designates_field. Qed.
+Print Assumptions resolve_designates_field.
+
+Theorem resolve_finds_every_field : forall fuel te s q fld,
+    field_at te s q = Some fld -> (length q <= fuel)%nat ->
+    exists p fld', resolve fuel te s (key_of fld) = Some p /\ field_at te s p = Some fld' /\ key_of fld' = key_of fld.
+Proof. exact GoConvPaths.resolve_finds_every_field. Qed.
+Print Assumptions resolve_finds_every_field.
+
+(* T = Top{Shell}, Shell{Mid; Z}, Mid{Core; Y}, Core{A,B,C}: three fields behind three embeddings (EmbedPath length 4) *)
+Definition te_deep : tenv :=
+  mkT [ mkS [67] (Some [99]) [ mkField [65] (Some [97]) false TInt; mkField [66] (Some [98]) false TInt; mkField [67] None false TString ];
+        mkS [77] (Some [109]) [ mkField [67] None true (TStruct [67]); mkField [89] (Some [121]) false TInt ];
+        mkS [83] (Some [115]) [ mkField [77] None true (TStruct [77]); mkField [90] (Some [122]) false TInt ];
+        mkS [84] (Some [116]) [ mkField [83] None true (TStruct [83]) ] ] [].
+Example deep_paths :
+  map fst (jsonmap 9 te_deep [84] []) = [[83]; [77]; [67]; [97]; [98]; [67]; [121]; [122]]
+  /\ map snd (jsonmap 9 te_deep [84] []) = [[0]; [0; 0]; [0; 0; 0]; [0; 0; 0; 0]; [0; 0; 0; 1]; [0; 0; 0; 2]; [0; 0; 1]; [0; 1]]%nat
+  /\ field_at te_deep [84] [0; 0; 0; 1]%nat = Some (mkField [66] (Some [98]) false TInt)
+  /\ (exists st, to_go 9 te_deep [84] (SRec 0 [116] [([98], SInt 5); ([97], SInt 4)]) = Ok (GPtr (Some 0%nat), st)
+                 /\ nth_error (heap st) 0 = Some (GStruct [84] [GStruct [83] [GStruct [77] [GStruct [67] [GInt 4; GInt 5; GStr []]; GInt 0]; GInt 0]])).
+Proof. split; [vm_compute; reflexivity|]. split; [vm_compute; reflexivity|]. split; [vm_compute; reflexivity|]. eexists. split; vm_compute; reflexivity. Qed.
+
+Theorem slice_elements_pointwise : forall f te top et cur l st v st',
+    conv (S f) te top (TSlice et) cur (SArr l) st = Ok (v, st') ->
+    exists z vs, zero_of f te et = Some z /\ v = GSlice vs /\ length vs = length l /\
+      forall i e, nth_error l i = Some e ->
+        exists x sta stb, nth_error vs i = Some x /\ conv f te false et z e sta = Ok (x, stb) /\
+                          st_le st sta /\ st_le stb st'.
+Proof. exact slice_elements_pointwise_full. Qed.
+Print Assumptions slice_elements_pointwise.
+
+Theorem slice_replaces_previous_content : forall fuel te top top' et cur cur' l st,
+    conv fuel te top (TSlice et) cur (SArr l) st = conv fuel te top' (TSlice et) cur' (SArr l) st.
+Proof. exact GoConvArr.slice_replaces_previous_content. Qed.
+Print Assumptions slice_replaces_previous_content.
+
+Theorem slice_struct_element_unnamed_zero : forall f te top sname cur l st v st' i id tn fs d,
+    conv (S (S f)) te top (TSlice (TStruct sname)) cur (SArr l) st = Ok (v, st') ->
+    nth_error l i = Some (SRec id tn fs) -> find_reg te tn = Some d ->
+    exists z vs x sta stb,
+      zero_of (S f) te (TStruct sname) = Some z /\ v = GSlice vs /\ nth_error vs i = Some x /\
+      conv (S f) te false (TStruct sname) z (SRec id tn fs) sta = Ok (x, stb) /\ st_le st sta /\
+      (cache_find id sta = None ->
+       forall q, (forall p, In p (res_paths (resolve_key f te (s_name d)) fs) -> is_prefix p q = false /\ is_prefix q p = false) ->
+                 get_path x q = get_path z q).
+Proof. exact GoConvArr.slice_struct_element_unnamed_zero. Qed.
+Print Assumptions slice_struct_element_unnamed_zero.
+
+Theorem slice_equal_ids_share : forall f te top et cur l st v st' i j id tn1 fs1 tn2 fs2,
+    et <> TUnsupported -> acyclic (SArr l) = true ->
+    conv (S f) te top (TSlice et) cur (SArr l) st = Ok (v, st') ->
+    nth_error l i = Some (SRec id tn1 fs1) -> nth_error l j = Some (SRec id tn2 fs2) ->
+    exists vs x, v = GSlice vs /\ nth_error vs i = Some x /\ nth_error vs j = Some x.
+Proof. exact GoConvArr.slice_equal_ids_share. Qed.
+Print Assumptions slice_equal_ids_share.
+
+(* [(deep P:7) (deep) (deep P:7 again, same record)] into []Deep and into []*Deep: the second element is zero, the
+   third equals the first (by value: a copy; by pointer: the same object) *)
+Definition d7 := SRec 5 [100] [([112], SInt 7)].
+Example slice_examples :
+  conv 9 te_ex false (TSlice (TStruct nD)) (GSlice [GStruct nD [GInt 99]]) (SArr [d7; SRec 6 [100] []; d7]) empty_state
+    = Ok (GSlice [GStruct nD [GInt 7]; GStruct nD [GInt 0]; GStruct nD [GInt 7]],
+          mkSt [] [(6, (TStruct nD, GStruct nD [GInt 0])); (5, (TStruct nD, GStruct nD [GInt 7]))])
+  /\ (exists st, conv 9 te_ex false (TSlice (TPtr nD)) (GSlice []) (SArr [d7; SRec 6 [100] []; d7]) empty_state
+                 = Ok (GSlice [GPtr (Some 0%nat); GPtr (Some 1%nat); GPtr (Some 0%nat)], st)).
+Proof. split; [vm_compute; reflexivity|eexists; vm_compute; reflexivity]. Qed.
+
+Theorem kind_table_total : forall f te top ty cur s st,
+    first_seen s st -> follows f te top ty cur s st (kind_table (skind_of s) (tkind_of ty)).
+Proof. exact kind_table_total_lemma. Qed.
+Print Assumptions kind_table_total.
+
+Theorem kind_table_refuses_no_valid_value : forall f te ty s v,
+    kind_table (skind_of s) (tkind_of ty) = VReject -> denote (S f) te ty s <> SOk v.
+Proof. exact table_reject_spec_rejects. Qed.
+Print Assumptions kind_table_refuses_no_valid_value.
+
+Theorem kind_table_spec_errors_rejected_or_listed_hole : forall f te ty s c,
+    is_scalar s = true -> ty <> TUnsupported -> denote (S f) te ty s = SErr c ->
+    kind_table (skind_of s) (tkind_of ty) = VReject \/ table_hole (skind_of s) (tkind_of ty) = true.
+Proof. exact spec_rejects_table. Qed.
+Print Assumptions kind_table_spec_errors_rejected_or_listed_hole.
+
+(* the table at a glance: of the 169 pairs, 10 are accepted by value, 115 refused, 12 dropped (uint64), 11 zeroed (nil),
+   7 decided by the contents, 14 outside the model (13 unsupported slot kind + record into string) — counted *)
+Example kind_table_census :
+  map (fun v => length (filter (fun kq => match kind_table (fst kq) (snd kq), v with
+                                          | VAccept, VAccept | VReject, VReject | VKeeps, VKeeps | VZero, VZero
+                                          | VDepends, VDepends | VSilent, VSilent => true | _, _ => false end)
+                               (list_prod all_skinds all_tkinds)))
+      [VAccept; VReject; VKeeps; VZero; VDepends; VSilent] = map Z.to_nat [10; 115; 12; 11; 7; 14].
+Proof. vm_compute. reflexivity. Qed.
